@@ -250,7 +250,8 @@ def GeoBox.overlapRoiUnrepaired (self other : GeoBox) (tol : Rat) : Res Roi :=
 /-- `GeoBox.enclosing(region)`  (geobox.py:686-706) for a region with a CRS whose vertices,
 expressed in the CRS of the GeoBox, are `p :: ps` (a `BoundingBox` region contributes its four
 corners; re-projection from another CRS is pyproj's and happens before this point).
-`region_crs = none` is the "Must supply geo-registered region" error. -/
+`regionCrs = none` is the "Must supply geo-registered region" `ValueError`; a GeoBox without a CRS
+then trips `assert self._crs is not None` in `GeoBox.project`. -/
 def GeoBox.enclosing (g : GeoBox) (regionCrs : Option Nat) (p : Rat × Rat) (ps : List (Rat × Rat)) :
     Res GeoBox :=
   if regionCrs = none then .error .valueError
